@@ -11,7 +11,7 @@ pub fn prop() -> Prop {
     Prop {
         id: "C18",
         level: "exploration",
-        rule: "for all 92 z slices: z in {lower bound + 1 ulp, middle, upper bound, upper bound - 1 ulp} x sign; every tabulated time and +-1 ulp (incl. first and last), t < first, t > last; |z| in {zmax, zmax + 1 ulp, 1.2, 1.3}; 1 ns scan of every slice (monotonicity, 8 ns step, bounds); random (z, t) in [-1.3, 1.3] x [-1e-6, 5e-6]. Each lookup through SpacePoint::try_from(Avalanche) is compared with an independent slice selection + linear interpolation of the shipped JSON table (Ok/Err exactly, r and Lorentz angle to 1e-12). Non-trivial = distinct (z bits, t bits) lookups that succeeded. Also: fixed-t sweeps of z through every slice bound in both directions (history), t = -0.0, any avalanche azimuth (phi - correction exact for |phi| up to 100). Round 6: 8 threads looking up at once, each in its own z slices, 1.3 x 10^6 lookups per run against the reference.",
+        rule: "for all 92 z slices: z in {lower bound + 1 ulp, middle, upper bound, upper bound - 1 ulp} x sign; every tabulated time and +-1 ulp (incl. first and last), t < first, t > last; |z| in {zmax, zmax + 1 ulp, 1.2, 1.3}; 1 ns scan of every slice (monotonicity, 8 ns step, bounds); random (z, t) in [-1.3, 1.3] x [-1e-6, 5e-6]. Each lookup through SpacePoint::try_from(Avalanche) is compared with an independent slice selection + linear interpolation of the shipped JSON table (Ok/Err exactly, r and Lorentz angle to 1e-12). Non-trivial = distinct (z bits, t bits) lookups that succeeded. Also: fixed-t sweeps of z through every slice bound in both directions (history), t = -0.0, any avalanche azimuth (phi - correction exact for |phi| up to 100). Round 6: 8 threads looking up at once, each in its own z slices, 1.3 x 10^6 lookups per run against the reference. Round 9: the avalanche's amplitudes set to NaN / 0 / infinities / negative values on every fourth lookup: bit-identical answer required.",
         assumptions: &["the harness parses the same shipped JSON table the library embeds", "when |z| exceeds the largest bound the corresponding error is the axial one whatever t is (there is no z slice whose time range could apply)"],
         profiles: both,
         shards: shards16,
